@@ -35,6 +35,7 @@ type Clause struct {
 	Name  string // for let
 	Params []string // for parametrised let (macro)
 	Macro  bool
+	Unroll int
 	Props []string
 	Line  int
 	Aux   bool
@@ -314,6 +315,16 @@ func (cs *ContractSet) addClause(pkg, file string, cur **Contract, line int, tex
 		cl.Kind = sub
 		idx := strings.Index(rest, sub)
 		rest = strings.TrimSpace(rest[idx+len(sub):])
+		if sub == "unroll" {
+			var k int
+			if _, err := fmt.Sscanf(rest, "%d", &k); err != nil || k <= 0 {
+				return errf("loop N unroll K")
+			}
+			cl.Unroll = k
+			cl.Src = rest
+			c.Clauses = append(c.Clauses, cl)
+			return nil
+		}
 		if sub != "invariant" && sub != "decreases" {
 			return errf("unknown loop clause %q", sub)
 		}
